@@ -206,6 +206,8 @@ example : (Reply.status 500 []).isTerr = false := rfl
 example : [Op.send "pw1".toList, .expect "x".toList].map Op.erase = [Op.send "pw2".toList, .expect "x".toList].map Op.erase := by
   decide
 example : noSetLog [.send [], .expect [], .abort []] = true := rfl
+example : ∀ b, Reply.terr "EOF".toList ≠ .ok b := by intro b h; cases h
+example : ∀ c ∈ "LUFRPT=".toList, c ≠ '"' ∧ c ≠ '\\' := by decide
 
 def obligations : List Lean.Name := [
   ``mask_uri_independent, ``mask_pass_independent, ``mask_api_uri_independent, ``mask_body_independent,
